@@ -189,7 +189,8 @@ theorem cr_needs_domain :
 
 /-- www_authenticate (as repaired: `type`, `token`, `parameters` reach their setters, `type` is
 lower-cased); written views are in `authGood`: a token challenge without parameters or a parameter
-challenge without token, scheme other than `digest` for parameters (round trips: the C06 lemmas
+challenge without token - for the scheme `digest` with every value a text (`digestOk`; the digest
+dumper writes `None` as the text `None`) - (round trips: C06's `www_digest_roundtrip` and the lemmas
 `authRest_token` / `authRest_params` behind `token_auth_roundtrip` / `www_param_roundtrip`; unlike
 C06's `SchemeOk` the scheme `basic` is allowed here — it is only special for `Authorization`) -/
 theorem view_coherent_auth (evs : List (Ev Auth.Op)) (s : S Auth.St)
@@ -206,6 +207,17 @@ example : okHistGood authFamily eqB anyView anyOp (fun _ c => authGood c) ⟨[],
      .view (.setitem "charset".toList (some "UTF-8".toList)), .view (.delitem "charset".toList), .refetch,
      .edit (fun h => (Hdr.set h "WWW-Authenticate".toList "Bearer t0k".toList).1), .refetch,
      .view (.setToken (some "other==".toList)), .view (.setType "token68".toList)] = true := by
+  decide +kernel
+
+/-- a `Digest` challenge through the view (always-quoted `realm` / `nonce` / `qop`, quoted-on-demand
+others; round trip: C06's `www_digest_roundtrip`): parameters set one by one, re-read, changed,
+removed -/
+example : okHistGood authFamily eqB anyView anyOp (fun _ c => authGood c)
+    ⟨[("WWW-Authenticate".toList, "Digest realm=\"r\", nonce=\"n\"".toList)],
+     Auth.load [("WWW-Authenticate".toList, "Digest realm=\"r\", nonce=\"n\"".toList)], true⟩
+    [.view (.setitem "qop".toList (some "auth".toList)), .view (.setitem "algorithm".toList (some "MD5".toList)),
+     .refetch, .view (.setitem "realm".toList (some "a \"b\" c".toList)), .view (.delitem "algorithm".toList),
+     .view (.pdict (.pop "qop".toList none)), .refetch] = true := by
   decide +kernel
 
 /-- the restrictions of `authGood` are needed: F16b (neither token nor parameters), F16c (token and
